@@ -94,10 +94,19 @@ def _check_syntactic(m, run, funcs, summ, contracts):
     from . import c09
     c09.no_escape(m, run)     # the 2-D grid view holds the very point lists of the flat array (never the caller's): edits through one view reach the other
     transpose_checks(m, run, summ)
-    flip_rule(m, run)
+    # the 2-D flip and the surface flip are decided on labelled grids / real surfaces (FL3); the rules that read the cell assignment and
+    # the reversal idiom corroborate
+    n_fl = len(run.obs)
+    try:
+        _sd.fl3(m, run)
+    except AnalysisError as ex:
+        run.error(str(ex))
+    fl_ok = len(run.obs) > n_fl and all(o.ok for o in run.obs[n_fl:])
+    with run.corroborating(fl_ok, 'FL3', rules=('FL1.flip', 'LY2.flip2d')):
+        flip_rule(m, run)
+        flip2d_rule(m, run)
     sweep_rule(m, run)
     _sd.sw2(m, run)
-    flip2d_rule(m, run)
     df1(m, run)
     run.floor('LY1.index-matches-layout', 40, 'index reads checked by the LAYOUT interpreter')
     run.floor('LY3.list-matches-declared-sizes', 24, 'set_ctrlpts / constructed nets checked by the LAYOUT interpreter')
